@@ -15,6 +15,7 @@ type Stream[T Request] interface {
 type reader[T Request] struct {
 	stream Stream[T]
 	buf    bytes.Buffer
+	err    error
 }
 
 func New[T Request](stream Stream[T]) *reader[T] {
@@ -24,13 +25,18 @@ func New[T Request](stream Stream[T]) *reader[T] {
 }
 
 func (r *reader[T]) Read(p []byte) (int, error) {
-	for len(p) > r.buf.Len() {
+	for r.err == nil && len(p) > r.buf.Len() {
 		resp, err := r.stream.Recv()
 		if err != nil {
+			r.err = err
 			break
 		}
 
 		r.buf.Write(resp.GetChunk())
+	}
+
+	if r.err != nil && r.buf.Len() == 0 {
+		return 0, r.err
 	}
 
 	return r.buf.Read(p)
